@@ -109,6 +109,22 @@ def stat(helper, cells, drop_na=None, ddof=0, index=None, q=None, na_truthy=None
         return NA
     nums = [_num(c) for c in xs]
     if any(isinstance(v, float) and math.isinf(v) for v in nums):
+        # IEEE arithmetic fixes sum, mean and the middle element(s): +inf and -inf together give NaN, one kind alone wins
+        pos = sum(1 for v in nums if isinstance(v, float) and v == math.inf)
+        neg = sum(1 for v in nums if isinstance(v, float) and v == -math.inf)
+        if helper in ("sum", "mean") and len(nums) >= 1:
+            if pos and neg: return NA
+            return ("N", math.inf if pos else -math.inf)
+        if helper == "median" and len(nums) >= 1:
+            srt = sorted(nums)
+            k = len(srt)
+            mid = [srt[k // 2]] if k % 2 else [srt[k // 2 - 1], srt[k // 2]]
+            if any(math.isinf(v) for v in mid if isinstance(v, float)):
+                if len(mid) == 2 and isinstance(mid[0], float) and isinstance(mid[1], float) and math.isinf(mid[0]) and math.isinf(mid[1]) and mid[0] != mid[1]:
+                    return NA
+                infs = [v for v in mid if isinstance(v, float) and math.isinf(v)]
+                return ("N", infs[0])
+            return ("N", float(sum(_frac(v) for v in mid) / len(mid)))
         return "UNSPECIFIED"
     fr = [_frac(v) for v in nums]
     n = len(fr)
